@@ -87,7 +87,7 @@ func pathText(p Path) string {
 			sb.WriteString("[" + strings.Join(ms, ",") + "]")
 		case 's':
 			part := func(k int) string {
-				if k >= len(f.S) || (k == 1 && f.S[k] == maxEnd) {
+				if k >= len(f.S) || (k == 1 && f.S[k] == maxEnd) || (k == 0 && f.NoStart) {
 					return ""
 				}
 				return strconv.Itoa(f.S[k])
@@ -182,7 +182,7 @@ func fragTokens(p Path, out []string) []string {
 			out = append(out, ".u"+strings.Join(ms, ","))
 		case 's':
 			st := "_"
-			if len(f.S) > 0 {
+			if len(f.S) > 0 && !f.NoStart {
 				st = strconv.Itoa(f.S[0])
 			}
 			out = append(out, ".s"+st+":"+optInt(f.S, 1)+":"+optInt(f.S, 2))
